@@ -89,7 +89,11 @@ def plan(tier, seed):
                              sizes=([1000, 2000] if kind == "DRR" else [1, 2]), N=6, gaps=["S", 1], order=0, map="id"))
     # bursts of one flow: with a zero vtick all of them carry one stamp
     cfgs.append(dict(sched="VC", table=[[0, 0], [1, 1]], rate=8, flows=[0, 1], sizes=[1], N=6 if quick else 7, gaps=["S", 1], order=0, map="id"))
-    # one long deterministic workload per scheduler (state that only breaks after ~1000 rounds / packets)
+    # ... and with packet ids that FALL within the flow (retransmitted / resequenced traffic): per-flow FIFO is about arrival order
+    cfgs.append(dict(sched="VC", table=[[0, 0], [1, 1]], rate=8, flows=[0, 1], sizes=[1], N=6 if quick else 7, gaps=["S", 1], order=0, map="id", ids_down=1))
+    for kind, tabs in tables.items():
+        cfgs.append(dict(sched=kind, table=tabs[0], rate=(8000 if kind == "DRR" else 8), flows=[0, 1],
+                         sizes=([1000, 2000] if kind == "DRR" else [1, 2]), N=nfull - 1, gaps="G3", order=0, map="id", ids_down=1))
     for kind, tabs in tables.items():
         cfgs.append(dict(sched=kind, table=tabs[0], rate=(8000 if kind == "DRR" else 8), flows=[0, 1],
                          sizes=([1000, 2000] if kind == "DRR" else [1, 2]), N=0, gaps="G3", order=0, map="id", endurance=3000))
